@@ -93,6 +93,10 @@ def noiseless_part(rep, rng, drv, QD, n_cases, replay):
                 av_d = d.average_tuning_curve(nsa, minimize=convex)
                 qt_n, av_n = d.quantile_tuning_curve(nsa, q=q), d.average_tuning_curve(nsa)
                 fq = d.cdf(qt)
+                if not np.array_equal(nsa, np.array(ns)):     # the caller's ns array went into eight calls: bit-identical afterwards
+                    rep.violate(what="a tuning-curve method modified the caller's ns array in place (later calls with the same array are evaluated on what it left there)",
+                                input=dict(inp, ns=[float(x) for x in ns]), observed=[float(x) for x in nsa],
+                                call="ns = np.array(...); QuadraticDistribution.quantile_tuning_curve(ns, ...); .average_tuning_curve(ns, ...); ns")
             except Exception as e:
                 rep.violate(what="a documented method raised on an input of the property's domain", error=repr(e), input=inp,
                             call="QuadraticDistribution")
@@ -324,7 +328,11 @@ def noisy_quantile_param_part(rep, rng, NQ, n_cases, forced=None):
                 try:
                     d = NQ(G.as_number(a, labels[0]), G.as_number(b, labels[1]), c, G.as_number(o, labels[2]), convex)
                     with np.errstate(all="ignore"):
-                        qt = d.quantile_tuning_curve(np.array(ns), q=q, minimize=mn)
+                        nsa2 = np.array(ns)
+                        qt = d.quantile_tuning_curve(nsa2, q=q, minimize=mn)
+                        if not np.array_equal(nsa2, np.array(ns)):
+                            rep.violate(what="quantile_tuning_curve modified the caller's ns array in place", input=dict(inp, ns=[float(x) for x in ns]),
+                                        observed=[float(x) for x in nsa2], call="ns = np.array(...); NoisyQuadraticDistribution.quantile_tuning_curve(ns, ...); ns")
                         qt_s = d.quantile_tuning_curve(ns[1], q=q, minimize=mn)
                         f_own, f_ref = np.asarray(d.cdf(qt), dtype=float), np.asarray(dref.cdf(np.asarray(qt, dtype=float)), dtype=float)
                 except Exception as e:
